@@ -11,6 +11,9 @@
 (*   <<"set", k, v>>      bind k to v                                      *)
 (*   <<"setfrom", k, j>>  bind k to the value of j (no-op if j is absent)  *)
 (*   <<"del", k>>         remove binding k                                 *)
+(*   <<"mutnested", k>>   change the value bound to k IN PLACE: the first   *)
+(*                        member of an array becomes "mut", an object gets  *)
+(*                        the key "mut" (no-op for scalars / absent k)     *)
 (*   <<"delall">>         remove every binding                             *)
 (*   <<"fresh", f>>       return the object f instead of the bindings      *)
 (*   <<"retnull">>        return null (a guard rejects; an action yields   *)
@@ -38,6 +41,11 @@ RunOps(ops, bs, em) ==
       [] o[1] = "set"       -> RunOps(r, Put(bs, o[2], o[3]), em)
       [] o[1] = "setfrom"   -> RunOps(r, IF o[3] \in DOMAIN bs THEN Put(bs, o[2], bs[o[3]]) ELSE bs, em)
       [] o[1] = "del"       -> RunOps(r, Drop(bs, o[2]), em)
+      [] o[1] = "mutnested" -> RunOps(r, IF o[2] \notin DOMAIN bs THEN bs
+                                         ELSE IF IsArr(bs[o[2]]) /\ bs[o[2]][2] # <<>>
+                                              THEN Put(bs, o[2], Arr([i \in DOMAIN bs[o[2]][2] |-> IF i = 1 THEN Str("mut") ELSE bs[o[2]][2][i]]))
+                                         ELSE IF IsObj(bs[o[2]]) THEN Put(bs, o[2], Obj(Put(bs[o[2]][2], "mut", Num(2))))
+                                         ELSE bs, em)
       [] o[1] = "delall"    -> RunOps(r, EmptyFn, em)
       [] o[1] = "fresh"     -> [oc |-> "ok", cls |-> "", bs |-> o[2], em |-> em, pem |-> em]
       [] o[1] = "retnull"   -> [oc |-> "null", cls |-> "", bs |-> EmptyFn, em |-> em, pem |-> em]
